@@ -502,8 +502,8 @@ def clean_decision_table(ctx: Ctx, rule: str) -> None:
                "" if ok_nr else "a non-reversible node is no longer unconditionally cleanable")
 
     # (3) reversible: last worker closes the door
-    wloops = [s for s in rev_body if isinstance(s, ast.For)]
-    if len(wloops) != 1 or ast.unparse(wloops[0].iter) != "self.shared_involved_workers":
+    wloops = [s for s in rev_body if isinstance(s, ast.For) and ast.unparse(s.iter) == "self.shared_involved_workers"]
+    if len(wloops) != 1:
         raise AnalysisError(f"{fref}: loop over self.shared_involved_workers not found in the reversible branch")
     wl = wloops[0]
     pe = PathEnum(None)
@@ -561,8 +561,24 @@ def clean_decision_table(ctx: Ctx, rule: str) -> None:
     ctx.record(rule + "s", "PROV", fref, "still-running test reads the lower-cased statuses of the picked node's results", ok_src,
                {"found": ast.unparse(status_src[0]) if status_src else None},
                "" if ok_src else "the still-running test no longer reads the picked node's result statuses")
-    tail = rev_body[rev_body.index(wl) + 1:]
-    ok_tail = len(tail) == 1 and isinstance(tail[0], ast.Return) and norm.formula(
+    # every worker that owns a (bridged) copy of the node must be cleanup ready on its copy, not only the workers that
+    # already picked it: with lazy expansion another worker may hold an unrolled, not yet linked dependant (finding F8)
+    covers_all_copies = False
+    for l in [x for x in rev_body if isinstance(x, ast.For)]:
+        it = ast.unparse(l.iter)
+        if "bridged_nodes" in it and "shared_involved_workers" not in ast.unparse(l) .split("is_cleanup_ready")[0][-400:]:
+            readiness = [c for c in calls_in(l) if call_name(c) == "is_cleanup_ready" and isinstance(c.func.value, ast.Name) and c.func.value.id == getattr(l.target, "id", None)]
+            rets = [r for r in ast.walk(l) if isinstance(r, ast.Return) and isinstance(r.value, ast.Constant) and r.value.value is False]
+            if readiness and rets:
+                covers_all_copies = True
+    ctx.record(rule + "x", "TABLE", fref,
+               "reversible: also every bridged copy owned by a worker that has not picked the node yet must be cleanup ready for that worker",
+               covers_all_copies, {"rule": "the clean decision quantifies over all owners of a copy, not only over shared_involved_workers"},
+               "" if covers_all_copies else "the clean decision only consults the workers that already picked the node (shared_involved_workers): a worker that "
+               "lazily unrolled a dependant but went to another parent first is not waited for, and the removable state is removed while that dependant is pending")
+    after = rev_body[rev_body.index(wl) + 1:]
+    tail = [x for x in after if isinstance(x, ast.Return)]
+    ok_tail = len(tail) == 1 and after[-1] is tail[0] and norm.formula(
         tail[0].value, rename={wname: "worker"}) == ("atom", "self.is_finished(worker, -1)")
     ctx.record(rule + "f", "TABLE", fref, "after all involved workers passed: return self.is_finished(worker, -1) (all involved workers finished)",
                ok_tail, {}, "" if ok_tail else "the final 'all involved workers finished' condition of default_clean_decision changed")
